@@ -71,6 +71,9 @@ def check_axis_parametricity(run, A):
                     continue
                 v = const_val(ax)
                 ok = opnd is not None and on_working_array(opnd)
+                if not ok and opnd is not None and isinstance(v, int) and not isinstance(v, bool):
+                    from ..walk import named_front_axes
+                    ok = 0 <= v < named_front_axes(opnd)          # an axis the function itself brought to the front (np.swapaxes(x, source_axis, 0)): the caller's axis by another name
                 run.check(ok, 'R-AXIS', f'{name}: literal axis {v!r} only on the canonical working array', f_.loc(t.node), '',
                           f'`{norm_stmt(t.node)}` uses the fixed axis {v!r} on an array in the caller\'s layout: moving source / sensor axes of the input would no longer move the computation with them',
                           construct=f'R-AXIS::{M + name}::literal-axis::{cname}')
@@ -104,6 +107,63 @@ def eps_sum(den):
     return None
 
 
+def not_followed_in(t):
+    """a construct inside the term t that the FORM rules below do not read: an index that is computed (a tuple built at run time), a reordering / broadcast / reshape of an
+    intermediate value.  A formula that does not match but contains one of these is written in another way - not decided; one that is made only of the operations the rules
+    read and still does not match deviates."""
+    if not isinstance(t, T):
+        return None
+    for x in walk_terms(t, into_mu=False):
+        if x.op == 'sub':
+            idx = x.args[1]
+            items = list(idx.args[0]) if idx.op == 'tuple' else [idx]
+            plain = all(i.op in ('slice', 'param', 'elem') or (i.op == 'const') for i in items)
+            if not plain:
+                return x
+        if is_call_to(x, 'numpy.swapaxes', 'numpy.moveaxis', 'numpy.transpose', 'numpy.broadcast_to', 'numpy.reshape', 'numpy.rollaxis', 'method:swapaxes', 'method:transpose',
+                      'numpy.take', 'numpy.take_along_axis', 'numpy.einsum'):
+            return x
+    return None
+
+
+def sum_axes_in(t):
+    """the kinds of axis the sums inside t run over: 'source' (the source_axis parameter), 'other' (a literal or another parameter), 'computed'"""
+    kinds = set()
+    for x in walk_terms(t, into_mu=False) if isinstance(t, T) else ():
+        n, pos, kw = call_parts(x) if x.op == 'call' else (None, (), {})
+        if n in ('method:sum', 'numpy.sum'):
+            ax = kw.get('axis', pos[1] if len(pos) > 1 else None)
+            if ax is None:
+                kinds.add('other')
+                continue
+            a0 = strip_views(ax)
+            if a0.op == 'param' and a0.args[0] == 'source_axis':
+                kinds.add('source')
+            elif a0.op in ('const', 'param'):
+                kinds.add('other')
+            else:
+                kinds.add('computed')
+    return kinds
+
+
+def form_verdict(run, ok, rule, title, where, expected, detail, construct, terms):
+    """ok -> discharged; a formula made of the operations the rules read that does not match -> violation; one that contains a construct the rules do not read, or whose sums
+    run over a computed axis -> undecided"""
+    if ok:
+        run.check(True, rule, title, where, expected, detail, construct=construct)
+        return
+    nf = next((not_followed_in(t) for t in terms if not_followed_in(t) is not None), None)
+    kinds = set()
+    for t in terms:
+        kinds |= sum_axes_in(t)
+    if 'other' not in kinds and (nf is not None or 'computed' in kinds or not kinds):
+        why = f'`{norm_stmt(nf.node)[:80]}` is not one of the operations this rule reads' if nf is not None else \
+            ('a sum over a computed axis' if 'computed' in kinds else 'no sum over an axis found in the formula')
+        run.unresolved(rule, title, where, f'{detail}; {why}')
+        return
+    run.check(False, rule, title, where, expected, detail, construct=construct)
+
+
 def check_forms(run, A):
     # ideal binary mask
     q = M + 'ideal_binary_mask'
@@ -119,7 +179,12 @@ def check_forms(run, A):
     st = [e for e in g.events if e.kind == 'store']
     oks = any(strip_views(e.term.args[1]).op == 'param' and strip_views(e.term.args[1]).args[0] == 'source_axis' for e in st)
     eqs = [t for e in g.events if e.term is not None for t in walk_terms(e.term) if t.op == 'cmp' and t.args[0] == 'Eq' and any(is_call_to(x, 'numpy.arange') for x in walk_terms(t.args[2]))]
-    run.check(oks and bool(eqs), 'FORM', 'ideal_binary_mask: compared with arange laid out along source_axis', fn.loc(), '', 'the class index grid is not reshaped along source_axis', construct=f'FORM::{q}::arange-axis')
+    if not st and eqs:
+        # no shape list is filled in at all: the grid of class indices is laid out in another way (expand_dims over the other axes, ...) - not read here
+        run.unresolved('FORM', 'ideal_binary_mask: compared with arange laid out along source_axis', fn.loc(), 'the class index grid is not built by filling a shape list at [source_axis]')
+    else:
+        run.check(oks and bool(eqs), 'FORM', 'ideal_binary_mask: compared with arange laid out along source_axis', fn.loc(), '', 'the class index grid is not reshaped along source_axis',
+                  construct=f'FORM::{q}::arange-axis')
     no_argmin = not any(is_call_to(e.term, 'numpy.argmin') for e in g.events if e.kind == 'call')
     run.check(no_argmin and bool(am), 'R-SEL', 'ideal_binary_mask: source of MAXIMAL power', fn.loc(), '', 'arg-min instead of arg-max', construct=f'R-SEL::{q}::argmax')
     # ratio masks
@@ -128,12 +193,15 @@ def check_forms(run, A):
         fn = A.prog.func(q)
         g = A.graphs.get(fn)
         ok = False
+        dens = []
         for dv in _division_terms(g):
+            dens.append(dv.args[2])
             x = eps_sum(dv.args[2])
             if x is not None:
                 base = sum_over_source(x)
                 ok = base is not None and strip_views(base) is strip_views(dv.args[1])
-        run.check(ok, 'FORM', f'{name}: divided by its own sum over source_axis plus eps', fn.loc(), '', 'mask /= mask.sum(source_axis, keepdims=True) + eps not found', construct=f'FORM::{q}::normalisation')
+        form_verdict(run, ok, 'FORM', f'{name}: divided by its own sum over source_axis plus eps', fn.loc(), '', 'mask /= mask.sum(source_axis, keepdims=True) + eps not found',
+                     f'FORM::{q}::normalisation', dens)
     q = M + 'ideal_amplitude_mask'
     fn = A.prog.func(q)
     g = A.graphs.get(fn)
@@ -148,7 +216,7 @@ def check_forms(run, A):
             if d is not None and is_call_to(strip_views(d), 'numpy.abs'):
                 inner = call_arg(strip_views(d), 0)
                 ok = is_source_sum(inner) and is_call_to(strip_views(x.args[1]), 'numpy.abs')
-    run.check(ok, 'FORM', 'ideal_amplitude_mask: |s| / (|sum over source_axis of s| + eps)', fn.loc(), '', 'form not recognised', construct=f'FORM::{q}::form')
+    form_verdict(run, ok, 'FORM', 'ideal_amplitude_mask: |s| / (|sum over source_axis of s| + eps)', fn.loc(), '', 'form not recognised', f'FORM::{q}::form', r)
     # phase sensitive mask
     q = M + 'phase_sensitive_mask'
     fn = A.prog.func(q)
@@ -169,15 +237,15 @@ def check_forms(run, A):
                 if th.op == 'binop' and th.args[0] == 'Sub':
                     a, b = strip_views(th.args[1]), strip_views(th.args[2])
                     ok_cos = is_call_to(a, 'numpy.angle') and is_call_to(b, 'numpy.angle') and data_derives(call_arg(a, 0), 'signal') and bool(obs) and call_arg(b, 0) is obs[0]
-    run.check(ok_obs and ok_div and ok_cos, 'FORM', 'phase_sensitive_mask: |s| / (|y| + eps) * cos(angle s - angle y), y = sum over source_axis', fn.loc(), '',
-              f'observed signal over source_axis: {ok_obs}; magnitude ratio with eps: {ok_div}; cosine of (angle s - angle y): {bool(ok_cos)}', construct=f'FORM::{q}::form')
+    form_verdict(run, ok_obs and ok_div and ok_cos, 'FORM', 'phase_sensitive_mask: |s| / (|y| + eps) * cos(angle s - angle y), y = sum over source_axis', fn.loc(), '',
+                 f'observed signal over source_axis: {ok_obs}; magnitude ratio with eps: {ok_div}; cosine of (angle s - angle y): {bool(ok_cos)}', f'FORM::{q}::form', list(ret_alts(g)))
     q = M + 'ideal_complex_mask'
     fn = A.prog.func(q)
     g = A.graphs.get(fn)
     r = [strip_views(x) for x in ret_alts(g)]
     ok = len(r) == 1 and r[0].op == 'binop' and r[0].args[0] == 'Div' and data_derives(r[0].args[1], 'signal') and is_source_sum(r[0].args[2]) \
         and data_derives(sum_over_source(r[0].args[2]), 'signal')
-    run.check(ok, 'FORM', 'ideal_complex_mask: s / sum over source_axis of s', fn.loc(), '', 'form not recognised', construct=f'FORM::{q}::form')
+    form_verdict(run, ok, 'FORM', 'ideal_complex_mask: s / sum over source_axis of s', fn.loc(), '', 'form not recognised', f'FORM::{q}::form', r)
     # eps defaults are positive
     for name in ('wiener_like_mask', 'ideal_ratio_mask', 'ideal_amplitude_mask', 'phase_sensitive_mask'):
         fn = A.prog.func(M + name)
